@@ -23,8 +23,9 @@ FD criteria (R(h) residual of the difference scheme, T = sum of the absolute val
         (1) |R(h)|  <= 0.05 T                    (truncation is small against the terms: h = 0.02 dist(x, Gamma))
         (2) |R(h2)| <= 0.35 |R(h)| + FLOOR T     (second order: the exact ratio is 0.25; observed 0.2501..0.2754)
         (3) |R_ex|  <= 0.05 |R(h)| + FLOOR T     (no h-independent defect)
-   FLOOR = 1e-6 covers the O(h^4) remainder ((h/dist)^4 ~ 1.6e-7) and rounding (~1e-12); a defect delta > 3e-5 T
-   is reported.  `curl E = ik H`, `div H = 0` and the scalar PDEs hold for the quadrature sums themselves (the kernel
+   FLOOR = 3e-6 covers the O(h^4) remainder ((h/dist)^4 ~ 1.6e-7; observed <= 6.1e-7 T over 2300 thorough cases) and
+   rounding (~1e-12); typical |R(h)| is 7e-4 T, so a defect delta > 4e-5 T is reported (checked by perturbing k^2:
+   a relative error 1e-4 in k^2 is flagged, 1e-5 is not).  `curl E = ik H`, `div H = 0` and the scalar PDEs hold for the quadrature sums themselves (the kernel
    solves the PDE in x for every y_q); `curl H = -ik E` and `div E = 0` use an integration by parts on Gamma and
    hold for the sums only up to the quadrature error: they are checked on a quadrature ladder (orders 3, 6, 10) with
    FLOOR_Q at the top order and the requirement that the defect does not grow along the ladder.
@@ -49,7 +50,7 @@ TOL_SUM = 1e-12
 TOL_LIMIT = 1e-6
 TOL_TRANS = 1e-12
 FD_REL_H = 0.02
-FD_C1, FD_C2, FD_C3, FD_FLOOR = 0.05, 0.35, 0.05, 1e-6
+FD_C1, FD_C2, FD_C3, FD_FLOOR = 0.05, 0.35, 0.05, 3e-6
 FLOOR_Q = 2e-5  # calibrated: observed quadrature defects of curl H + ik E and div E: <= 3.3e-2 T at order 3, <= 7e-6 T at 6, <= 1e-7 T at 10
 INV4PI = 1.0 / (4.0 * math.pi)
 
